@@ -512,4 +512,12 @@ func runC14(c *engine.Ctx) {
 	// ---- R7 closing the control connection wakes its reader on every transport (shared with C01.R10): the heartbeat
 	// watchdog tears a session down by closing the connection; over QUIC that works only if Close aborts the receive side ----
 	checkGracefulClose(c, "R7")
+
+	// ---- R8 the late cleanup of a replaced session never removes its successor (shared with C12.R2): otherwise the
+	// healed session looks alive but every work connection is refused until the next connection loss ----
+	checkDelIfSame(c, "R8")
+
+	// ---- R9 a refused or unanswered registration is retried after its timeout (shared with C19.R4) ----
+	c.Rule("R9", "every store of a phase constant to WorkingStatus.Phase happens on paths that restrict the current phase to the legal predecessors of that constant (a start error is retried after startErrTimeout, a lost answer after waitResponseTimeout)")
+	checkPhaseStores(c)
 }
